@@ -93,11 +93,32 @@ def check (toks : List String) : String :=
     | _ => "bad-op"
   | _ => "bad-op"
 
+/-- Executable form of `OptOK` (Proofs/C04/Range2.lean) for every bit length `0..numBits-1`:
+every row of the optimal limb sizes is a non-empty run of one bit length `≤ max_bit_len`, at most
+`nr` long, and the sizes add up to the bit length. -/
+def optOkAll (nr mbl : Nat) : Bool :=
+  let t := optTable nr mbl (fi.numBits - 1)
+  (List.range fi.numBits).all (fun b =>
+    let rows := t.getD b []
+    rows.all (fun r => match r with
+      | [] => false
+      | x :: _ => decide (1 ≤ x ∧ x ≤ mbl ∧ r.length ≤ nr) && r.all (· = x)) &&
+    decide ((rows.map List.sum).sum = b))
+
+def optok (toks : List String) : String :=
+  match toks with
+  | [nr, mbl] =>
+    match parseNat? nr, parseNat? mbl with
+    | some nr, some mbl => if nr = 0 ∨ nr > 4 ∨ mbl = 0 then "bad-op" else fmtBool (optOkAll nr mbl)
+    | _, _ => "bad-op"
+  | _ => "bad-op"
+
 def answer (line : String) : String :=
   match words line with
   | "trace" :: rest => trace rest
   | "eval" :: rest => eval rest
   | "check" :: rest => check rest
+  | "optok" :: rest => optok rest
   | _ => "bad-op"
 
 end MidnightZK.C04.Driver
